@@ -69,3 +69,17 @@ def _v8(repo, mod):
 def _v9(repo, mod):
     fn = repo.func(SUB, f"{C}._fix_result_for_pickle")
     return insert_before(mod, fn.body[-1], "_unused = result")
+
+
+@variant("C31", "instrument-flag-not-handed-over", SUB, "C31.transfer", "set_instrument() stays in the parent (the repaired defect)")
+def _v30(repo, mod):
+    fn = repo.func(SUB, "SubprocessTestCaseExecutor._setup_subprocess_execution")
+    t = find_node(fn, lambda n: isinstance(n, ast.Tuple) and any(norm(e) == "self._instrument" for e in n.elts))
+    return replace_node(mod, next(e for e in t.elts if norm(e) == "self._instrument"), "None")
+
+
+@variant("C31", "instrument-flag-received-not-applied", SUB, "C31.transfer", "the child receives the flag and drops it")
+def _v31(repo, mod):
+    fn = repo.func(SUB, "SubprocessTestCaseExecutor._execute_test_cases_in_subprocess")
+    s = find_stmt(fn, lambda s: isinstance(s, ast.If) and "instrument" in norm(s.test))
+    return delete_stmt(mod, s)
